@@ -63,7 +63,15 @@ var (
 	freeInodes uint64 = 1 << 30
 	totalInodes uint64 = 1 << 31
 	perPathCount = map[string]int{}
+	last      OpRec
 )
+
+// LastOp is the most recent mutating call (reported with a crash).
+func LastOp() OpRec {
+	mu.Lock()
+	defer mu.Unlock()
+	return last
+}
 
 // Init activates the seam. allowed are the directory roots the node may touch.
 func Init(allowed []string, fs []Fault, keepTrace bool, pathPolice bool) {
@@ -169,8 +177,9 @@ func mutate(op, p string, length int) (err error, shortN int, crashAfter bool, t
 	defer mu.Unlock()
 	nMut++
 	k := nMut
+	last = OpRec{N: k, Op: op, Path: rel(p), Len: length}
 	if traceOn {
-		trace = append(trace, OpRec{N: k, Op: op, Path: rel(p), Len: length})
+		trace = append(trace, last)
 	}
 	allocating := op == "write" || op == "writeat" || op == "create" || op == "mkdir" || op == "writefile" || op == "createtemp"
 	if full && allocating {
